@@ -831,6 +831,8 @@ class RefQuals:
             return "%d%s" % (len(self.m), "e" if not self.m else "")
         if n == "eqf":
             return "eqf:T"
+        if n == "snap":
+            return "."
         if n == "iter":
             return show_pairs(self.items())
         if n == "riter":
